@@ -13,19 +13,36 @@ import (
 type CExpr interface{ String() string }
 
 type (
-	CIdent  struct{ Name string }
-	CInt    struct{ V string }
-	CStr    struct{ V string }
-	CBool   struct{ V bool }
-	CNil    struct{}
-	CUnary  struct{ Op string; X CExpr }
-	CBinary struct{ Op string; L, R CExpr }
-	CSel    struct{ X CExpr; Name string }
-	CIndex  struct{ X, I CExpr }
-	CSlice  struct{ X, Lo, Hi CExpr }
-	CCall   struct{ Fun string; Args []CExpr; FunX CExpr }
-	CQuant  struct{ Forall bool; Var, Typ string; Body CExpr }
-	CIte    struct{ C, A, B CExpr }
+	CIdent struct{ Name string }
+	CInt   struct{ V string }
+	CStr   struct{ V string }
+	CBool  struct{ V bool }
+	CNil   struct{}
+	CUnary struct {
+		Op string
+		X  CExpr
+	}
+	CBinary struct {
+		Op   string
+		L, R CExpr
+	}
+	CSel struct {
+		X    CExpr
+		Name string
+	}
+	CIndex struct{ X, I CExpr }
+	CSlice struct{ X, Lo, Hi CExpr }
+	CCall  struct {
+		Fun  string
+		Args []CExpr
+		FunX CExpr
+	}
+	CQuant struct {
+		Forall   bool
+		Var, Typ string
+		Body     CExpr
+	}
+	CIte struct{ C, A, B CExpr }
 )
 
 func (e CIdent) String() string  { return e.Name }
@@ -52,7 +69,9 @@ func (e CQuant) String() string {
 	}
 	return q + " " + e.Var + " " + e.Typ + " :: " + e.Body.String()
 }
-func (e CIte) String() string { return "ite(" + e.C.String() + "," + e.A.String() + "," + e.B.String() + ")" }
+func (e CIte) String() string {
+	return "ite(" + e.C.String() + "," + e.A.String() + "," + e.B.String() + ")"
+}
 
 type tok struct {
 	kind string // id int str op eof
